@@ -153,7 +153,7 @@ theorem routed_adj (c : Csr Rat) (fb : Bool) (v r cc : Seeds) (rt : Routed)
   · cases h
   · split at h
     · right
-      cases hs : (if v.given then stackValues c.nRow c.nCol v .none else stackValues c.nRow c.nCol r cc) with
+      cases hs : (if v.given then stackValues c.nRow c.nCol v cc else stackValues c.nRow c.nCol r cc) with
       | error e => rw [hs] at h; cases h
       | ok vals =>
         rw [hs] at h
